@@ -4,19 +4,30 @@ from __future__ import annotations
 import argparse
 import dataclasses
 import itertools
+import random
+from pathlib import Path
 
 from harness.core import sp
 
 PID = "C12"
-RULE = ("cases: (a) str2bool over every casing of the 10 vocabulary words, padded and non-words; (b) the negative-option "
-        "string surgery of the real BooleanOptionalAction on parser-produced and synthetic option lists; (c) end-to-end "
-        "parses of occurrence sequences (bare / negative / valued / value-on-negative) in 8 prefix situations (incl. two-dot paths) x dash "
-        "variants x custom negative prefix/option; exhaustive for sequences of length <= 2 (quick) / <= 3 (thorough) in "
-        "the plain situation. Non-trivial = an end-to-end case with >= 2 occurrences or a prefixed situation, or a "
-        "unit case with a dotted / multi-spelling option list; distinct by canonical JSON of the case.")
+RULE = ("cases: (a) str2bool over every casing of the 10 vocabulary words, padded (incl. the separators \\x1c-\\x1f that "
+        "str.strip() removes) and non-words; (b) the negative-option string surgery of the real BooleanOptionalAction on "
+        "synthetic option lists (conflict prefixes with and without a final dot, dotted negative prefixes, positional "
+        "spellings) AND on the option lists the real parser produces for every (situation x name x dash variant x "
+        "negative prefix/option x nested mode) combination (enumerated, seed-independent); (c) end-to-end parses of "
+        "occurrence sequences (bare / negative / valued / value-on-negative; `=` or space; any spelling) in 11 prefix "
+        "situations (plain, AUTO, AUTO with an underscore in the destinations, EXPLICIT, NESTED, BOTH, nested members with two-dot paths, user prefix with and "
+        "without a final dot) x dash variants x nested modes x custom negative prefix/option: enumerated for all "
+        "sequences of length <= 2 (quick) / <= 4 (thorough) over a 9-symbol alphabet in the plain situation and of "
+        "length <= 1 (quick) / <= 2 (thorough) for EVERY (situation, negative spec) pair, plus random sequences of "
+        "length <= 4 over the full alphabet (every word in 4 casings, padded words, non-words). Non-trivial = an "
+        "end-to-end case with >= 2 occurrences or a prefixed situation, or a unit case with a dotted / multi-spelling "
+        "option list; distinct by canonical JSON of the case.")
 ASSUMPTIONS = [
-    "argparse's nargs='?' consumption of the next non-option token (stdlib)",
-    "str.lower()/str.strip() are modelled on ASCII; generated tokens are ASCII",
+    "argparse's nargs='?' consumption of the next non-option token and `--opt=value` splitting (stdlib): the model receives "
+    "the (option string, value) pairs the harness wrote on the command line",
+    "str.lower()/str.strip() are modelled on ASCII (strip: the 10 ASCII characters str.isspace() accepts); non-ASCII blanks "
+    "(\\x85, \\xa0, ...) are checked by the oracle only",
 ]
 TRUSTED = ["stdlib argparse option lexing"]
 EXHAUSTIVE = {"quick": False, "thorough": False}
@@ -25,6 +36,16 @@ THOROUGH_ROUNDS = 3   # thorough tier: this many generator passes with derived P
 TRUE_W = ["yes", "true", "t", "y", "1"]
 FALSE_W = ["no", "false", "f", "n", "0"]
 NONWORDS = ["maybe", "2", "tru", "", "yess", "on", "off", "none"]
+PADDED = [" TRUE ", "\tno", "Yes\n", "\x1ctrue", "0\x1f", " f\x1d\x1e"]
+
+# the end-to-end model op (Drive/BoolFlagE2E.lean) exists once the integrator has added it to lean/Driver.lean; until
+# then the end-to-end cases are compared through the older op `bool.run` (occurrence algebra only)
+_DRIVER = Path(__file__).resolve().parents[2] / "lean" / "Driver.lean"
+try:
+    HAS_E2E_OP = "boolE2EOps" in _DRIVER.read_text()
+except OSError:
+    HAS_E2E_OP = False
+E2E_OP = "bool.e2e" if HAS_E2E_OP else "bool.run"
 
 
 def spec_word(w: str):
@@ -61,7 +82,7 @@ def occ_alphabet_full():
     for w in TRUE_W + FALSE_W:
         for c in casings(w):
             a.append({"k": "valued", "w": c})
-    for w in NONWORDS:
+    for w in NONWORDS + PADDED:
         a.append({"k": "valued", "w": w})
     a.append({"k": "negvalued", "w": "true"})
     a.append({"k": "negvalued", "w": "0"})
@@ -69,7 +90,12 @@ def occ_alphabet_full():
     return a
 
 
-SITUATIONS = ["plain", "auto2", "explicit2", "nested_gen", "member_auto", "both_gen", "nested_member", "explicit_member"]
+# situation -> (what is registered, conflict resolution, generation mode); user_* pass `prefix=` to add_arguments
+SITUATIONS = ["plain", "auto2", "explicit2", "nested_gen", "member_auto", "both_gen", "nested_member", "explicit_member",
+              "user_us", "user_dot", "auto2_us"]
+TWO_DESTS = {"auto2": ("a", "b"), "explicit2": ("a", "b"), "auto2_us": ("my_a", "my_b")}   # auto2_us: '_' in the conflict prefix
+USER_PREFIX = {"user_us": "x_", "user_dot": "x."}
+NESTED_SITS = ("nested_gen", "both_gen", "nested_member")      # the nested mode matters only for these
 NEGS = [
     {"neg_prefix": None, "neg_option": None},
     {"neg_prefix": "--no-", "neg_option": None},
@@ -77,15 +103,31 @@ NEGS = [
     {"neg_prefix": None, "neg_option": "silent"},
     {"neg_prefix": None, "neg_option": "-s"},
     {"neg_prefix": None, "neg_option": "--quiet"},
+    {"neg_prefix": None, "neg_option": "q"},
 ]
 NAMES = ["flag", "v", "my_flag"]
 
 
-def e2e_case(rng, occs, situation="plain", default=False, name="flag", dash="UNDERSCORE", neg=None):
+def negs_for(sit):
+    # an explicit negative option declared on a class that is used twice collides with itself unless a conflict prefix
+    # exists; in NESTED mode there is none, and the property does not promise anything there.
+    return NEGS[:3] if sit == "nested_member" else NEGS
+
+
+def defaults_for(sit):
+    # the member situations build the members with default_factory=C, which needs a default
+    return [True, False, None] if sit in ("plain", "nested_gen", "both_gen", "user_us", "user_dot") else [True, False]
+
+
+def cfg_case(situation="plain", default=False, name="flag", dash="UNDERSCORE", neg=None, nest="DEFAULT"):
     neg = neg or NEGS[0]
+    return {"situation": situation, "default": default, "name": name, "dash": dash, "nest": nest,
+            "neg_prefix": neg["neg_prefix"], "neg_option": neg["neg_option"]}
+
+
+def e2e_case(rng, occs, **kw):
     occs = [dict(o, si=rng.randrange(4), eq=rng.random() < 0.5) for o in occs]
-    return {"op": "bool.run", "case": {"situation": situation, "default": default, "name": name, "dash": dash,
-                                       "neg_prefix": neg["neg_prefix"], "neg_option": neg["neg_option"], "occs": occs}}
+    return {"op": E2E_OP, "case": dict(cfg_case(**kw), occs=occs)}
 
 
 def gen(rng, tier):
@@ -94,49 +136,84 @@ def gen(rng, tier):
         for c in all_casings(w):
             yield {"op": "str2bool", "case": {"s": c}}
         yield {"op": "str2bool", "case": {"s": "  " + w + "\t"}}
+        yield {"op": "str2bool", "case": {"s": "\x1c" + w.upper() + "\x1f\x1d"}}
         yield {"op": "str2bool", "case": {"s": w + "x"}}
         yield {"op": "str2bool", "case": {"s": w[:-1]}}
-    for w in NONWORDS + ["ye s", "t rue", "TRUE ", "\nno", "10", "01", "-1", "Ｙ"]:
+        yield {"op": "str2bool", "case": {"s": w[:1] + " " + w[1:]}}
+    for w in NONWORDS + PADDED + ["ye s", "t rue", "TRUE ", "\nno", "10", "01", "-1", "Ｙ", "\x1ctrue", "no\x1f", "\x1e",
+                                  "\x1bno", "no\x00", "\x7fyes"]:
         yield {"op": "str2bool", "case": {"s": w}}
-    # (b) negative option surgery on synthetic option lists
-    parts = ["a", "b", "flag", "my_flag", "x-y", "v"]
+    # non-ASCII blanks are stripped by str.strip() but lie outside the modelled (ASCII) fragment: oracle only
+    for w in ["\xa0no", "yes\x85", " TRUE　", "İ", "ｔｒｕｅ"]:
+        yield {"op": "str2bool", "case": {"s": w}, "model": False}
+    # (b1) negative option surgery on synthetic option lists
+    parts = ["a", "b", "flag", "my_flag", "x-y", "v", ""]
     n_unit = 250 if tier == "quick" else 4000
     for _ in range(n_unit):
         opts = []
         for _ in range(rng.randrange(1, 4)):
             depth = rng.choice([0, 0, 1, 2, 3])
             body = ".".join(rng.choice(parts) for _ in range(depth + 1))
-            opts.append(rng.choice(["-", "--", "--", "---"]) + body)
+            opts.append(rng.choice(["-", "--", "--", "---", "--", ""]) + body)
         neg = rng.choice(NEGS + [{"neg_prefix": "-n", "neg_option": None}, {"neg_prefix": "no", "neg_option": None},
-                                  {"neg_prefix": None, "neg_option": "q"}])
-        cp = rng.choice(["", "", "a.", "a.b.", "x_y."])
+                                  {"neg_prefix": "--no.", "neg_option": None}, {"neg_prefix": "--a.no-", "neg_option": None},
+                                  {"neg_prefix": None, "neg_option": ""}, {"neg_prefix": None, "neg_option": "---z"}])
+        cp = rng.choice(["", "", "a.", "a.b.", "x_y.", "x_", "x", ".", "a.x_"])
         yield {"op": "bool.neg", "case": {"opts": opts, "neg_prefix": neg["neg_prefix"] or "--no",
                                            "neg_option": neg["neg_option"], "conflict_prefix": cp, "synthetic": True}}
-    # (c) end-to-end
-    maxlen = 2 if tier == "quick" else 3
+    # (b2) ... and on the option lists the REAL parser produces: every configuration (enumerated)
+    for sit in SITUATIONS:
+        for name in NAMES:
+            for dash in sp.ALL_DASH:
+                for neg in negs_for(sit):
+                    for nest in (sp.ALL_NEST if sit in NESTED_SITS else ["DEFAULT"]):
+                        yield {"op": "bool.neg", "case": dict(cfg_case(sit, False, name, dash, neg, nest), synthetic=False)}
+    # (c) end-to-end.  The enumerated blocks choose spelling index / `=` from a fixed PRNG so that they are the same in
+    # every generator pass (vcheck drops the duplicates in passes 2, 3); the random stream varies them.
+    erng = random.Random(12)
+    maxlen = 2 if tier == "quick" else 4
     alpha = OCC_ALPHABET_SMALL
     for default in (True, False, None):
         for n in range(0, maxlen + 1):
+            if n == 4 and default is not False:
+                continue  # length 4 (6561 sequences): one default is affordable; the random stream covers the others
             for seq in itertools.product(alpha, repeat=n):
-                yield e2e_case(rng, list(seq), default=default)
+                yield e2e_case(erng, list(seq), default=default)
     full = occ_alphabet_full()
     for default in (True, False, None):
         for o in full:
-            yield e2e_case(rng, [o], default=default)
-    n_rand = 400 if tier == "quick" else 20000
+            yield e2e_case(erng, [o], default=default)
+    # every (situation, negative spec) pair: all short sequences; the other dimensions rotate deterministically
+    pair_len = 1 if tier == "quick" else 2
+    i = 0
+    for sit in SITUATIONS:
+        for neg in negs_for(sit):
+            for n in range(0, pair_len + 1):
+                for seq in itertools.product(alpha, repeat=n):
+                    i += 1
+                    dfl = defaults_for(sit)
+                    nests = sp.ALL_NEST if sit in NESTED_SITS else ["DEFAULT"]
+                    yield e2e_case(erng, list(seq), situation=sit, default=dfl[i % len(dfl)], name=NAMES[(i // 3) % 3],
+                                   dash=sp.ALL_DASH[(i // 9) % 3], neg=neg, nest=nests[(i // 27) % len(nests)])
+    n_rand = 400 if tier == "quick" else 9000
     for _ in range(n_rand):
         sit = rng.choice(SITUATIONS)
-        default = rng.choice([True, False, None]) if sit in ("plain", "nested_gen", "both_gen") else rng.choice([True, False])
         occs = [rng.choice(full) for _ in range(rng.choice([0, 1, 1, 2, 2, 3, 4]))]
-        # an explicit negative option declared on a class used twice collides with itself unless a conflict prefix
-        # exists; in NESTED mode there is none, and the property does not promise anything there.
-        negs = NEGS[:3] if sit == "nested_member" else NEGS
-        yield e2e_case(rng, occs, situation=sit, default=default, name=rng.choice(NAMES),
-                       dash=rng.choice(sp.ALL_DASH), neg=rng.choice(negs))
+        yield e2e_case(rng, occs, situation=sit, default=rng.choice(defaults_for(sit)), name=rng.choice(NAMES),
+                       dash=rng.choice(sp.ALL_DASH), neg=rng.choice(negs_for(sit)),
+                       nest=rng.choice(sp.ALL_NEST) if sit in NESTED_SITS else "DEFAULT")
 
 
 # ------------------------------------------------------------------------------------------------
 # real code
+
+
+def _gen_mode(sit):
+    if sit in ("nested_gen", "nested_member"):
+        return "NESTED"
+    if sit == "both_gen":
+        return "BOTH"
+    return "FLAT"
 
 
 def _build(case):
@@ -155,24 +232,22 @@ def _build(case):
         fld = dataclasses.field() if default is None else dataclasses.field(default=default)
     C = dataclasses.make_dataclass("C", [(c["name"], bool, fld)])
     sit = c["situation"]
-    cfg = {"dash": c["dash"]}
-    if sit == "explicit2":
+    cfg = {"dash": c["dash"], "gen": _gen_mode(sit), "nest": c.get("nest", "DEFAULT")}
+    if sit in ("explicit2", "explicit_member"):
         cfg["cr"] = "EXPLICIT"
-    if sit == "explicit_member":
-        cfg["cr"] = "EXPLICIT"
-    if sit in ("nested_gen", "nested_member"):
-        cfg["gen"] = "NESTED"
-    if sit == "both_gen":
-        cfg["gen"] = "BOTH"
     sp.reset_globals()
     parser = sp.make_parser(cfg)
     if sit in ("plain", "nested_gen", "both_gen"):
         parser.add_arguments(C, dest="c")
         target, other = f"c.{c['name']}", None
-    elif sit in ("auto2", "explicit2"):
-        parser.add_arguments(C, dest="a")
-        parser.add_arguments(C, dest="b")
-        target, other = f"a.{c['name']}", f"b.{c['name']}"
+    elif sit in USER_PREFIX:
+        parser.add_arguments(C, dest="a", prefix=USER_PREFIX[sit])
+        target, other = f"a.{c['name']}", None
+    elif sit in TWO_DESTS:
+        d1, d2 = TWO_DESTS[sit]
+        parser.add_arguments(C, dest=d1)
+        parser.add_arguments(C, dest=d2)
+        target, other = f"{d1}.{c['name']}", f"{d2}.{c['name']}"
     elif sit in ("member_auto", "nested_member", "explicit_member"):
         P = dataclasses.make_dataclass("P", [("m", C, dataclasses.field(default_factory=C)),
                                              ("k", C, dataclasses.field(default_factory=C))])
@@ -191,6 +266,33 @@ def _get(ns, dotted):
     return cur
 
 
+def _observe_setup(c):
+    """build parser #1 and read what the real code registered for the target field"""
+
+    def setup():
+        parser, target, other = _build(c)
+        parser._preprocessing(args=[])
+        return parser, target, other
+
+    r = sp.run_outcome(setup)
+    if r["o"] != "ok":
+        return None, {"setup": {k: v for k, v in r.items() if k != "value"}}
+    parser, target, other = r["value"]
+    act = sp.action_for_dest(parser, target)
+    negs = list(getattr(act, "negative_option_strings", []))
+    n_pos = len(act.option_strings) - len(negs)
+    pos_list = list(act.option_strings[:n_pos])          # exactly what FieldWrapper handed to the action, in order
+    fw = None
+    for w in parser._wrappers:
+        for f in w.fields:
+            if f.dest == target:
+                fw = {"name": f.name, "prefix": f.prefix, "dest": f.dest, "aliases": list(f.aliases), "positional": False}
+    all_opts = [o for a in parser._actions for o in sorted(set(a.option_strings))]
+    res = {"pos": [o for o in pos_list if o not in negs] or pos_list, "pos_list": pos_list, "neg": negs,
+           "prefix": fw["prefix"] if fw else None, "fw": fw, "n_opts": len(all_opts), "n_distinct_opts": len(set(all_opts))}
+    return (target, other), res
+
+
 def impl(case):
     op, c = case["op"], case["case"]
     if op == "str2bool":
@@ -200,7 +302,7 @@ def impl(case):
             return {"o": "ok", "v": str2bool(c["s"])}
         except argparse.ArgumentTypeError:
             return {"o": "err"}
-    if op == "bool.neg":
+    if op == "bool.neg" and c.get("synthetic", True):
         from simple_parsing.helpers.custom_actions import BooleanOptionalAction
 
         try:
@@ -212,43 +314,35 @@ def impl(case):
             return {"neg": list(a.negative_option_strings)}
         except (NotImplementedError, AssertionError):
             return {"err": "raise"}
-    if op == "bool.run":
+    if op == "bool.neg":
+        _, res = _observe_setup(c)
+        return res
+    if op in ("bool.run", "bool.e2e"):
         # parser #1: read the real option strings; parser #2 (fresh): parse
-        def setup():
-            parser, target, other = _build(c)
-            parser._preprocessing(args=[])
-            return parser, target, other
-
-        r = sp.run_outcome(setup)
-        if r["o"] != "ok":
-            return {"setup": r}
-        parser, target, other = r["value"]
-        act = sp.action_for_dest(parser, target)
-        negs = list(getattr(act, "negative_option_strings", []))
-        pos = [o for o in act.option_strings if o not in negs]
-        fw_prefix = None
-        for w in parser._wrappers:
-            for f in w.fields:
-                if f.dest == target:
-                    fw_prefix = f.prefix
-        all_opts = [o for a in parser._actions for o in sorted(set(a.option_strings))]
-        argv = []
+        tgt, res = _observe_setup(c)
+        if tgt is None:
+            return res
+        target, other = tgt
+        pos, negs = res["pos"], res["neg"]
+        argv, toks = [], []
         for o in c["occs"]:
             k = o["k"]
             if k == "bare":
                 argv.append(pos[o["si"] % len(pos)])
+                toks.append({"opt": argv[-1], "val": None})
             elif k == "neg":
                 argv.append(negs[o["si"] % len(negs)])
+                toks.append({"opt": argv[-1], "val": None})
             else:
                 base = pos[o["si"] % len(pos)] if k == "valued" else negs[o["si"] % len(negs)]
+                toks.append({"opt": base, "val": o["w"]})
                 if o["eq"]:
                     argv.append(f"{base}={o['w']}")
                 else:
                     argv += [base, o["w"]]
         parser2, _, _ = _build(c)
         out = sp.run_outcome(lambda: parser2.parse_args(argv))
-        res = {"pos": pos, "neg": negs, "prefix": fw_prefix, "argv": argv, "n_opts": len(all_opts),
-               "n_distinct_opts": len(set(all_opts))}
+        res["argv"], res["toks"] = argv, toks
         if out["o"] == "ok":
             ns = out["value"]
             res["out"] = {"o": "ok", "v": _get(ns, target)}
@@ -260,23 +354,71 @@ def impl(case):
     raise ValueError(op)
 
 
+def _indep_fw(c):
+    """the FieldWrapper facts of the target when set-up failed before they could be read (independent of the code)"""
+    sit = c["situation"]
+    if sit in USER_PREFIX:
+        return {"name": c["name"], "prefix": USER_PREFIX[sit], "dest": f"a.{c['name']}", "aliases": [], "positional": False}
+    if sit in ("plain", "nested_gen", "both_gen"):
+        return {"name": c["name"], "prefix": "", "dest": f"c.{c['name']}", "aliases": [], "positional": False}
+    return None
+
+
+def _from_parser(case):
+    """the case builds a real parser (end-to-end, or the negative-option unit op on a parser-produced list)"""
+    return "situation" in case["case"]
+
+
+def skip_model(case, obs):
+    if case["op"] == "bool.run" and "setup" in obs:
+        return True     # the older op models the occurrence algebra only, not set-up
+    if case["op"] in ("bool.e2e", "bool.neg") and _from_parser(case) and "setup" in obs:
+        return _indep_fw(case["case"]) is None
+    return False
+
+
 def model_case(case, obs):
     c = case["case"]
-    if case["op"] == "bool.run":
+    op = case["op"]
+    if op == "bool.run":
         return {"default": c["default"], "occs": [{"k": o["k"], "w": o.get("w", "")} for o in c["occs"]], "exit_neg": 2}
+    if op == "bool.neg" and not c.get("synthetic", True):
+        fw = obs.get("fw") or _indep_fw(c)
+        opts = obs.get("pos_list")
+        if opts is None:   # set-up failed: the positive spellings of the two situations where the prefix is known
+            opts = ["--" + (fw["prefix"] + c["name"]).replace("_", "-" if c["dash"] == "DASH" else "_")]
+        return {"opts": opts, "neg_prefix": c["neg_prefix"] or "--no", "neg_option": c["neg_option"],
+                "conflict_prefix": fw["prefix"]}
+    if op == "bool.e2e":
+        fw = obs.get("fw") or _indep_fw(c)
+        return {"cfg": {"dash": c["dash"], "gen": _gen_mode(c["situation"]), "nest": c.get("nest", "DEFAULT")}, "fw": fw,
+                "neg_prefix": c["neg_prefix"] or "--no", "neg_option": c["neg_option"], "default": c["default"],
+                "exit_neg": 2, "toks": obs.get("toks", [])}
     return c
 
 
+def _proj_out(o):
+    if o["o"] == "ok":
+        return {"o": "ok", "v": o["v"]}
+    if o["o"] == "exit":
+        return {"o": "exit", "code": o["code"]}
+    return {"o": "raise", "exc": o.get("exc")}
+
+
 def project(case, obs):
-    if case["op"] == "bool.run":
+    op = case["op"]
+    if op == "bool.run":
         if "setup" in obs:
             return {"setup": obs["setup"]["o"]}
-        o = obs["out"]
-        if o["o"] == "ok":
-            return {"o": "ok", "v": o["v"]}
-        if o["o"] == "exit":
-            return {"o": "exit", "code": o["code"]}
-        return {"o": "raise", "exc": o.get("exc")}
+        return _proj_out(obs["out"])
+    if op == "bool.e2e":
+        if "setup" in obs:
+            return {"setup": obs["setup"]["o"]}
+        return {"pos": obs["pos_list"], "neg": obs["neg"], "out": _proj_out(obs["out"])}
+    if op == "bool.neg" and not case["case"].get("synthetic", True):
+        if "setup" in obs:
+            return {"err": obs["setup"]["o"]}
+        return {"neg": obs["neg"]}
     return obs
 
 
@@ -313,6 +455,54 @@ def spec_negative(pos: str, neg_prefix: str) -> str:
     return "-" * nd + path + dot + npw + leaf
 
 
+def spec_conflict_prefix(c, pos) -> str:
+    """The conflict prefix carried by the POSITIVE option, read off its spelling (not from FieldWrapper.prefix): what stands
+    between the dashes and the field name in the flat long spelling. In NESTED-only generation mode no flat spelling
+    exists and the dotted path is the destination, not a conflict prefix (the property promises a path-prefixed
+    counterpart only "unless a single explicit negative option is declared"): there the prefix is what the user passed."""
+    if _gen_mode(c["situation"]) == "NESTED":
+        return ""
+    cands = []
+    for p in pos:
+        if not p.startswith("--"):
+            continue
+        body = p[2:]
+        for n in {c["name"], c["name"].replace("_", "-")}:
+            if body.endswith(n):
+                cands.append(body[: len(body) - len(n)])
+    return min(cands, key=len) if cands else ""
+
+
+def oracle_strings(c, obs):
+    """the clauses about the option STRINGS (set-up succeeded)"""
+    fails = []
+    if obs["n_opts"] != obs["n_distinct_opts"]:
+        fails.append({"clause": "collision", "detail": "two different actions share an option string"})
+    if c["neg_option"] is None:
+        npfx = c["neg_prefix"] or "--no"
+        for p in obs["pos"]:
+            if p.startswith("--"):
+                e = spec_negative(p, npfx)
+                if e not in obs["neg"]:
+                    fails.append({"clause": "neg-counterpart", "detail": f"{p} has no negative {e} (negatives: {obs['neg']})"})
+    else:
+        declared = c["neg_option"]
+        if len(obs["neg"]) != 1:
+            fails.append({"clause": "neg-counterpart", "detail": f"explicit negative option gives {obs['neg']}"})
+        else:
+            got = obs["neg"][0]
+            want_body = spec_conflict_prefix(c, obs["pos"]) + declared.lstrip("-")
+            nd = len(got) - len(got.lstrip("-"))
+            if got.lstrip("-") != want_body:
+                fails.append({"clause": "neg-counterpart",
+                              "detail": f"negative {got!r} is not <dashes>{want_body!r} (conflict prefix of the positive option + the declared option)"})
+            elif declared.startswith("-") and nd != len(declared) - len(declared.lstrip("-")):
+                fails.append({"clause": "neg-counterpart", "detail": f"negative {got!r} does not keep the dashes of the declared {declared!r}"})
+            elif not declared.startswith("-") and nd not in (1, 2):
+                fails.append({"clause": "neg-counterpart", "detail": f"negative {got!r}: {nd} leading dashes"})
+    return fails
+
+
 def oracle(case, obs):
     op, c = case["op"], case["case"]
     fails = []
@@ -321,7 +511,11 @@ def oracle(case, obs):
         got = obs.get("v") if obs["o"] == "ok" else None
         if exp != got or (obs["o"] == "ok") != (exp is not None):
             fails.append({"clause": "vocabulary", "detail": f"str2bool({c['s']!r}) -> {obs}, property says {exp}"})
-    elif op == "bool.run":
+    elif op == "bool.neg" and not c.get("synthetic", True):
+        if "setup" in obs:
+            return [{"clause": "setup", "detail": f"parser setup failed: {obs['setup']}"}]
+        fails += oracle_strings(c, obs)
+    elif op in ("bool.run", "bool.e2e"):
         if "setup" in obs:
             fails.append({"clause": "setup", "detail": f"parser setup failed: {obs['setup']}"})
             return fails
@@ -331,77 +525,156 @@ def oracle(case, obs):
         if exp != got:
             fails.append({"clause": "last-wins", "detail": f"argv {obs['argv']} default {c['default']}: got {got}, property says {exp}",
                           "got": list(got), "exp": list(exp)})
-        if o["o"] == "exit" and o["code"] == 2 and not o.get("stderr_nonempty"):
-            fails.append({"clause": "stderr", "detail": "rejected without a message on stderr"})
+        # (a rejection without a message on stderr is not part of the property text: reported as a tag only)
         if o["o"] == "ok" and "other" in obs and obs["other"] != c["default"]:
             fails.append({"clause": "other-dest", "detail": f"other destination changed to {obs['other']}"})
-        if obs["n_opts"] != obs["n_distinct_opts"]:
-            fails.append({"clause": "collision", "detail": "two different actions share an option string"})
-        if c["neg_option"] is None:
-            npfx = c["neg_prefix"] or "--no"
-            for p in obs["pos"]:
-                if p.startswith("--"):
-                    e = spec_negative(p, npfx)
-                    if e not in obs["neg"]:
-                        fails.append({"clause": "neg-counterpart", "detail": f"{p} has no negative {e} (negatives: {obs['neg']})"})
-        else:
-            if len(obs["neg"]) != 1:
-                fails.append({"clause": "neg-counterpart", "detail": f"explicit negative option gives {obs['neg']}"})
-            elif (obs.get("prefix") or "") not in obs["neg"][0]:
-                fails.append({"clause": "neg-counterpart", "detail": f"negative {obs['neg']} lacks the conflict prefix {obs.get('prefix')!r}"})
+        fails += oracle_strings(c, obs)
     return fails
 
 
 def nontrivial(case, obs):
     op, c = case["op"], case["case"]
-    if op == "bool.run":
+    if op in ("bool.run", "bool.e2e"):
         return len(c["occs"]) >= 2 or c["situation"] != "plain"
     if op == "bool.neg":
+        if not c.get("synthetic", True):
+            return c["situation"] != "plain"
         return len(c["opts"]) >= 2 or any("." in o for o in c["opts"])
     return spec_word(c["s"]) is not None and c["s"] not in TRUE_W + FALSE_W
+
+
+def _cfg_tags(c):
+    t = [f"sit:{c['situation']}", f"dash:{c['dash']}", f"name:{c['name']}", f"nest:{c.get('nest', 'DEFAULT')}",
+         "default:" + ("required" if c["default"] is None else str(c["default"])),
+         "neg:" + ("option" if c["neg_option"] is not None else ("prefix" if c["neg_prefix"] else "default"))]
+    if c["neg_option"] is not None:
+        no = c["neg_option"]
+        t.append("negopt:" + ("dashed" if no.startswith("-") else ("char" if len(no) == 1 else "word")))
+    return t
 
 
 def tags(case, obs):
     op, c = case["op"], case["case"]
     t = [f"op:{op}"]
-    if op == "bool.run":
-        t.append(f"sit:{c['situation']}")
+    if op in ("bool.run", "bool.e2e"):
+        t += _cfg_tags(c)
         t.append(f"len:{len(c['occs'])}")
+        for k in sorted({o["k"] for o in c["occs"]}):
+            t.append(f"occ:{k}")
+        for o in c["occs"]:
+            if "w" in o:
+                t.append("sep:" + ("=" if o["eq"] else "space"))
+                w = o["w"]
+                t.append("word:" + ("nonword" if spec_word(w) is None else ("padded" if w != w.strip() else
+                                                                             ("lower" if w == w.lower() else "cased"))))
+        if "pos" in obs:
+            t.append(f"spellings:{len(obs['pos'])}")
+            for o in c["occs"]:
+                t.append(f"spelling_index:{o['si'] % len(obs['pos'] if o['k'] in ('bare', 'valued') else obs['neg'])}")
+            t.append("dots:" + str(max(p.count(".") for p in obs["pos"])))
         if "out" in obs:
             o = obs["out"]
             t.append("out:" + (o["o"] if o["o"] != "exit" else f"exit{o['code']}"))
-        t.append("neg:" + ("option" if c["neg_option"] is not None else ("prefix" if c["neg_prefix"] else "default")))
+            if o["o"] == "exit" and not o.get("stderr_nonempty"):
+                t.append("exit-without-message")
+        if "setup" in obs:
+            t.append("setup:" + str(obs["setup"].get("exc") or obs["setup"]["o"]))
+    elif op == "bool.neg":
+        if c.get("synthetic", True):
+            t.append("neg-unit:synthetic")
+            t.append("neg-unit:" + ("raise" if "err" in obs else "ok"))
+            t.append("cp:" + ("empty" if not c["conflict_prefix"] else ("dotted" if c["conflict_prefix"].endswith(".") else "undotted")))
+        else:
+            t.append("neg-unit:real")
+            t += _cfg_tags(c)
+            if "setup" in obs:
+                t.append("setup:" + str(obs["setup"].get("exc") or obs["setup"]["o"]))
+    elif op == "str2bool":
+        s = c["s"]
+        t.append("word:" + ("nonword" if spec_word(s) is None else ("padded" if s != s.strip() else "bare")))
+        if not s.isascii():
+            t.append("word:non-ascii")
     return t
 
 
 def shrink(case):
-    if case["op"] != "bool.run":
+    if case["op"] not in ("bool.run", "bool.e2e"):
         return
     c = case["case"]
     for i in range(len(c["occs"])):
         yield {"op": case["op"], "case": dict(c, occs=c["occs"][:i] + c["occs"][i + 1:])}
     if c["situation"] != "plain":
-        yield {"op": case["op"], "case": dict(c, situation="plain")}
+        yield {"op": case["op"], "case": dict(c, situation="plain", nest="DEFAULT")}
     if c["dash"] != "UNDERSCORE":
         yield {"op": case["op"], "case": dict(c, dash="UNDERSCORE")}
     if c["neg_prefix"] or c["neg_option"]:
         yield {"op": case["op"], "case": dict(c, neg_prefix=None, neg_option=None)}
+    if c["name"] != "flag":
+        yield {"op": case["op"], "case": dict(c, name="flag")}
 
 
-FINDINGS = {}
+def neighbours(case, rng):
+    """cases near a disagreeing case: the same configuration end to end with short occurrence sequences"""
+    c = case["case"]
+    if "situation" not in c:
+        return
+    base = {k: c[k] for k in ("situation", "default", "name", "dash", "neg_prefix", "neg_option")}
+    base["nest"] = c.get("nest", "DEFAULT")
+    for n in (0, 1, 2):
+        for seq in itertools.product(OCC_ALPHABET_SMALL[:4], repeat=n):
+            occs = [dict(o, si=rng.randrange(4), eq=rng.random() < 0.5) for o in seq]
+            yield {"op": E2E_OP, "case": dict(base, occs=occs)}
+
+
+def _f_user_prefix(case, obs, fail):
+    """add_arguments(..., prefix=<not ending in '.'>) + a declared negative_option: bare AssertionError at set-up"""
+    c = case["case"]
+    return (fail.get("clause") == "setup" and USER_PREFIX.get(c.get("situation"), ".").endswith(".") is False
+            and c.get("neg_option") is not None and obs.get("setup", {}).get("exc") == "AssertionError")
+
+
+def _f_dash_prefix(case, obs, fail):
+    """DASH variant: the positive option spells the conflict prefix with dashes (--my-a.flag), the declared negative option
+    keeps the underscores (--my_a.silent)"""
+    c = case["case"]
+    if not (fail.get("clause") == "neg-counterpart" and c.get("dash") == "DASH" and c.get("neg_option") is not None
+            and c.get("situation") == "auto2_us" and len(obs.get("neg", [])) == 1):
+        return False
+    return obs["neg"][0].lstrip("-") == "my_a." + c["neg_option"].lstrip("-") and all("_" not in p for p in obs["pos"])
+
+
+FINDINGS = {"C12-explicit-neg-user-prefix": _f_user_prefix, "C12-explicit-neg-dash-variant": _f_dash_prefix}
 
 MANIFEST = {
-    "text": ("Proof (full for the occurrence algebra and vocabulary; the negative-option string surgery is covered by "
-             "correspondence + direct oracle, its injectivity theorem is stated over the model). Lean theorems: last "
-             "occurrence wins for sequences of any length, a value on a negative flag or a non-word anywhere in the "
-             "command line is rejected with status 2 and no other status is ever produced, absent flag gives the default "
-             "or a rejection when required, str2bool accepts exactly the ten words after strip+lower. The model is tied "
-             "to the code by three correspondence ops (str2bool, negative-option strings of the real "
-             "BooleanOptionalAction, end-to-end parses in six prefix situations) and the property's own statement is "
-             "evaluated on every real observation."),
-    "note": ("Trusted: Lean kernel + propext/Classical.choice/Quot.sound; argparse's lexing and nargs='?' consumption "
-             "(stdlib, exercised end-to-end); the harness. Modelled not verified: custom_actions.py:22-172, "
-             "utils.py:115-132 (ASCII case folding only)."),
-    "technique": "Lean 4 induction over the occurrence list + differential correspondence against BooleanOptionalAction",
+    "text": ("Proof, for the occurrence algebra, the vocabulary AND the negative option strings. Lean theorems over the "
+             "executable model: last occurrence wins for sequences of any length; a value on a negative flag or a non-word "
+             "anywhere in the command line is rejected with status 2 and no other status is ever produced; absent flag gives "
+             "the default or a rejection when required; str2bool accepts exactly the ten words after strip+lower and two "
+             "tokens equal up to ASCII letter case name the same boolean (via strip/lower commuting, not by definition). "
+             "Negative option strings: closed form of the surgery for dotted and undotted spellings (negative prefix after "
+             "the last dot, path kept), set-up raises exactly for a positional-looking spelling, every spelling starting with "
+             "a dash has its counterpart and nothing else is generated (negLoop, any list), the counterpart map is injective "
+             "on spellings with equal dash count for every negative prefix (so the negatives of different long spellings — "
+             "same-named fields at different destinations — never collide; the version without the dash-count hypothesis is "
+             "refuted by -a/--a, which the code merges on purpose), the explicit negative option carries the conflict prefix "
+             "and is injective in it when the prefix is empty or ends in a dot, and raises otherwise (full statement refuted "
+             "by a witness: open finding C12-explicit-neg-user-prefix). End to end: for EVERY dash variant, generation mode, "
+             "nested mode, name, prefix, destination and alias list the option strings of the field (Model/Naming) all get "
+             "counterparts, a token is a negative occurrence iff it is a negative option string (tested first, as in the "
+             "code), and a command line ending in a negative / positive / valued spelling yields False / True / the named "
+             "boolean. The model is tied to the code by correspondence ops: str2bool; the negative option strings of the real "
+             "BooleanOptionalAction on synthetic lists and on the lists the real parser builds in every configuration "
+             "(11 prefix situations x names x dash variants x negative specs x nested modes, enumerated); end-to-end parses "
+             "(op bool.e2e when integrated in the driver: real positive list, real negative list and real outcome against "
+             "the composed model; else op bool.run: outcome only). The property's own statement is evaluated on every real "
+             "observation."),
+    "note": ("Trusted: Lean kernel + propext/Classical.choice/Quot.sound; argparse's lexing, `--opt=value` splitting and "
+             "nargs='?' consumption (stdlib, exercised end-to-end: the model receives (option string, value) pairs); the "
+             "harness. Modelled not verified: custom_actions.py:22-172, utils.py:115-132 (ASCII case folding and ASCII "
+             "blanks only; non-ASCII blanks oracle-only), field_wrapper.py:377-387 (the conflict prefix handed to the action "
+             "is FieldWrapper.prefix, read from the real wrapper). The oracle's explicit-negative clause reads the conflict "
+             "prefix off the positive flat spelling; in NESTED-only mode it expects the bare declared option (no promise in "
+             "the text). A rejection without a stderr message is tagged, not demanded."),
+    "technique": "Lean 4 induction over the occurrence list and list/string lemmas for the option surgery + differential correspondence against BooleanOptionalAction and the real parser",
     "design_ref": "DESIGN.md section 5, C12",
 }
